@@ -137,7 +137,8 @@ class MyFloat(float):
 # value kind -> (python value or ('TEXT', gin text), literal?)
 VALUES = {
     'int': (7, True), 'negint': (-12, True), 'float': (1.5, True), 'bigfloat': (1e100, True), 'negzero': (-0.0, True),
-    'bool': (True, True), 'none': (None, True), 'imag': (2j, True),
+    'bool': (True, True), 'none': (None, True), 'imag': (2j, True), 'zero': (0, True), 'false': (False, True),
+    'empty_str': ('', True), 'empty_bytes': (b'', True), 'zero_float': (0.0, True),
     'str_short': ('abc', True), 'str_long_spaces': ('a long string with spaces ' * 6, True),
     'str_long_nospace': ('x' * 120, True), 'str_quotes': ('it\'s a "quoted"\nsecond line\ttab \\ backslash', True),
     'str_hash': ('# not a comment', True), 'bytes': (b'by\x00tes\xff', True), 'unicode': ('h\xe9✓', True),
